@@ -87,7 +87,8 @@ RECURSIVE PopTo(_, _)
 PopTo(st, lv) == IF st # <<>> /\ st[Len(st)].lv >= lv
                  THEN PopTo(SubSeq(st, 1, Len(st) - 1), lv) ELSE st
 
-IsHead(e, m) == e.k = "H" /\ e.a < m
+\* "G" is a heading given as a paragraph that the page's layout lists as a heading
+IsHead(e, m) == e.k \in {"H", "G"} /\ e.a < m
 
 StackAfter(d, i, m) ==
     FoldLeft(LAMBDA st, j : IF IsHead(d[j], m)
@@ -111,7 +112,7 @@ Chain(d, i, m) == SetToSortSeq(ChainSet(d, i, m), <)
 \* of the property; what it does report must be true: every entry of the path is a
 \* heading of the document that does not come after the chunk's content.
 WeakPath(path, lastEl) ==
-    \A j \in 1..Len(path) : path[j] \in 1..Len(doc) /\ doc[path[j]].k = "H" /\ path[j] <= lastEl
+    \A j \in 1..Len(path) : path[j] \in 1..Len(doc) /\ doc[path[j]].k \in {"H", "G"} /\ path[j] <= lastEl
 
 \* the section title a chunk shows (as a heading element; -1 = not observed) is the
 \* innermost heading of its section path
@@ -133,7 +134,14 @@ PagesOf(first, k) ==
     \cup {doc[i].pg : i \in {j \in 1..Len(doc) : doc[j].n = 0 /\ FirstOf(doc, j) \in first..(first + k)}}
 
 \* hollow headings have no text by which a path could name them: -1 stands for them
-NormPath(p) == [j \in 1..Len(p) |-> IF p[j] \in 1..Len(doc) THEN (IF doc[p[j]].n = 0 THEN -1 ELSE p[j]) ELSE p[j]]
+\* and a text that several elements show (text class t > 0) cannot name one of them:
+\* -(100 + t) stands for any heading of that class
+TextClass(e) == IF "t" \in DOMAIN e THEN e.t ELSE 0
+NormPath(p) == [j \in 1..Len(p) |->
+                  IF p[j] \in 1..Len(doc)
+                  THEN (IF doc[p[j]].n = 0 THEN -1
+                        ELSE IF TextClass(doc[p[j]]) > 0 THEN -(100 + TextClass(doc[p[j]])) ELSE p[j])
+                  ELSE p[j]]
 
 EmitOK(ch) ==
     /\ ch.k >= 0
@@ -186,7 +194,8 @@ Build(l) ==
     /\ IF l.k = "NP"
        THEN /\ pages' = Append(pages, PageNum(pstep, Len(pages) + 1))
             /\ doc' = doc
-       ELSE /\ doc' = Append(doc, [k |-> l.k, a |-> l.a, pg |-> pages[Len(pages)], n |-> l.n])
+       ELSE /\ doc' = Append(doc, [k |-> l.k, a |-> l.a, pg |-> pages[Len(pages)], n |-> l.n,
+                                     t |-> IF "t" \in DOMAIN l THEN l.t ELSE 0])
             /\ pages' = pages
     /\ UNCHANGED <<pstep, minor, phase, consumed, nchunks, ids, emitted, implvars>>
 
